@@ -43,3 +43,4 @@ def run(ctx):
     A.r18_3_written_vs_accepted(ctx, 'R05.11', skip_kinds=('enum',))
     from . import shared as S
     S.r12_sinks(ctx)
+    H.r16_1_purity(ctx, 'R05.13', roots=['yatiml.recognizer:Recognizer.recognize'], what='recognition (a trial of one candidate leaves the node as it was for the next)')
